@@ -501,6 +501,8 @@ def takeover(chk):
         ids = proto.Ids(pv)
         reqs = [(rng.randrange(2 ** 31), rng.choice(['minecraft:brand', 'x:y']), bytes(rng.randrange(256) for _ in range(rng.randrange(0, 12)))) for _ in range(rng.randrange(1, 6))]
         take = {mid: rng.random() < 0.5 for mid, _c, _d in reqs}
+        implied = {mid: rng.random() < 0.5 for mid, _c, _d in reqs}
+        answer_of = {mid: rng.choice([b'', b'', b'ok:' + bytes([mid % 256])]) for mid, _c, _d in reqs}
         thr = rng.choice([None, None, 0, 64])
         steps = ([('comp', thr)] if thr is not None else []) + [('plugin',) + r for r in reqs] + [('success',)]
         frames, _cut = build_server(ids, steps)
@@ -512,7 +514,11 @@ def takeover(chk):
 
             def mine(p):
                 if take.get(p.message_id):
-                    conn.write_packet(sb.login.PluginResponsePacket(message_id=p.message_id, successful=True, data=b'ok:' + bytes([p.message_id % 256])))
+                    ans = answer_of[p.message_id]
+                    if implied[p.message_id]:
+                        conn.write_packet(sb.login.PluginResponsePacket(message_id=p.message_id, data=ans))       # success implied by the presence of data
+                    else:
+                        conn.write_packet(sb.login.PluginResponsePacket(message_id=p.message_id, successful=True, data=ans))
                     raise IgnorePacket()
             conn.register_packet_listener(mine, cb.login.PluginRequestPacket, early=True)
             conn.connect()
@@ -529,7 +535,7 @@ def takeover(chk):
                 if pid == ids.sb_plugin_response:
                     mid, j = proto.rd_varint(body, 0)
                     got.append([mid, bool(body[j]), bytes(body[j + 1:])])
-            exp = [[m, True, b'ok:' + bytes([m % 256])] if take[m] else [m, False, b''] for m, _c, _d in reqs]
+            exp = [[m, True, answer_of[m]] if take[m] else [m, False, b''] for m, _c, _d in reqs]
             what = None if got == exp else 'plugin responses on the wire %s; expected %s' % ([[g[0], g[1], g[2].hex()] for g in got], [[g[0], g[1], g[2].hex()] for g in exp])
             if what is None and reactor != 'PlayingReactor':
                 what = 'the login did not reach the play state (%s)' % reactor
